@@ -25,6 +25,8 @@ def run_c14(ctx, props, stray=False):
             impl_phase(ctx, "rand", exe, ["random", ctx.seed, 2500, 2], [3, 5, 1, 0], "TraceArr", "", consts(3), props)
     else:
         closure(ctx, exe, "a2n3", 2, 3, True, stray, props)
+        # objects set up with the CSTL_*_INITIALIZER macros instead of the init functions: same closure, same model
+        closure(ctx, build(ctx, "drv_arr_macro", "drv_arr.c", LIB, wrap=WRAP, defs=["USE_INITIALIZER"]), "a2n2-macro", 2, 2, False, stray, props)
         if not stray:
             closure(ctx, exe, "a3n2", 3, 2, False, False, props)
             impl_phase(ctx, "rand", exe, ["random", ctx.seed, 20000, 3], [4, 12, 1, 0], "TraceArr", "", consts(4), props)
